@@ -597,3 +597,173 @@ func genPBig(r *rng, id string, cnt counters, emit func(line, out string)) *pExe
 	emit("E", "E")
 	return e
 }
+
+// genPLarge drives a parser with LARGE geometry (buffers and windows beyond 64 KiB, the default
+// 128 KiB block size, offsets above 65535, positions above 2^16) and pipes every block into a
+// Decoder with the same window. It is oracle-only: the list-based Lean model is quadratic in the
+// buffer size for the hash parsers, so these scripts are NOT replayed on the model (the header
+// emitted to the model is the no-op machine X); the Go oracles (C01 round trip, C02 fields, C03
+// accounting, C19 maximality and runs, C13 twin, C07/C04 decoder pipeline) evaluate the
+// implementation directly. A finding carries the parser script with generated payloads, so it
+// replays with `lzh replay`.
+func genPLarge(r *rng, id string, cnt counters, emit func(line, out string)) (*pExec, *dExec) {
+	kind := allKinds[r.intn(len(allKinds))]
+	c := pcfg{kind: kind, f: map[string]int{}}
+	bs := r.pick(66000, 70000, 131080, 140000, 200000) + r.intn(100)
+	c.f["BufferSize"] = bs
+	c.f["WindowSize"] = r.pick(65535, 65536, 65537, 70000, bs, 32768, bs+5)
+	c.f["ShrinkSize"] = r.pick(0, 1000, bs/2, bs-1, 65536)
+	c.f["BlockSize"] = r.pick(0, 40000, 65536, 70000, bs)
+	longOff := r.chance(50)
+	if longOff {
+		// long-distance repeats: offsets above 65535 need a window, a buffer and a shrink size beyond 64 KiB
+		bs = r.pick(140000, 200000, 270000) + r.intn(100)
+		if kind == "OSAP" || kind == "GSAP" {
+			bs = 140000 + r.intn(100)
+		}
+		c.f["BufferSize"] = bs
+		c.f["WindowSize"] = r.pick(70000, bs, 131072, bs+5, 100000)
+		c.f["ShrinkSize"] = r.pick(bs/2, bs-1, 70000, bs-40000)
+		c.f["BlockSize"] = r.pick(0, 40000, 65536, 70000)
+	}
+	switch kind {
+	case "HP", "BHP":
+		c.f["InputLen"] = r.pick(0, 3, 4, 8)
+		c.f["HashBits"] = r.pick(0, 8, 12, 16)
+	case "DHP", "BDHP":
+		c.f["InputLen1"] = r.pick(0, 3, 4)
+		c.f["InputLen2"] = r.pick(0, 6, 8)
+		c.f["HashBits1"] = r.pick(0, 10, 16)
+		c.f["HashBits2"] = r.pick(0, 10, 16)
+	case "BUP":
+		c.f["InputLen"] = r.pick(0, 3, 5)
+		c.f["HashBits"] = r.pick(0, 8, 12)
+		c.f["BucketSize"] = r.pick(0, 2, 10)
+	case "GSAP":
+		c.f["MinMatchLen"] = r.pick(0, 3, 4)
+	case "OSAP":
+		c.f["MinMatchLen"] = r.pick(0, 3)
+		c.f["MaxMatchLen"] = r.pick(0, 273, 64)
+	}
+	e, st := newPExec(c, cnt)
+	e.twinOn = true
+	hdr := fmt.Sprintf("S %s X", id)
+	emit(hdr, fmt.Sprintf("S %s ok", id))
+	e.lines = append(e.lines, e.header(id))
+	cnt.inc("p.large." + kind)
+	if st != "ok" {
+		emit("E", "E")
+		return e, nil
+	}
+	W := e.bc.WindowSize
+	d, _ := newDExec(fmt.Sprintf("S %s DD %d %d 0 -", id, W, r.pick(0, 0, 2*W, W+70000)), cnt)
+	// the stream: segments that recur at long distances
+	type seg struct{ spec string }
+	var segs []string
+	newSeg := func() string {
+		n := r.pick(r.rangeIn(1, 300), r.rangeIn(1000, 9000), r.rangeIn(20000, 70000))
+		switch r.intn(6) {
+		case 0:
+			return fmt.Sprintf("=%d:%d", r.pick(0, 97, 255), n) // a run
+		case 1:
+			return fmt.Sprintf("@%d:%d", r.intn(1000), n) // period 1009, 5 letters
+		default:
+			return fmt.Sprintf("#%d:%d", r.intn(100000), n) // aperiodic
+		}
+	}
+	total := 0
+	limit := r.rangeIn(150000, 320000)
+	if kind == "OSAP" || kind == "GSAP" {
+		limit = r.rangeIn(100000, 180000) // a suffix sort per fill
+	}
+	for guard := 0; guard < 400 && !e.dead && total < limit; guard++ {
+		var sp string
+		if longOff && len(segs) >= 2 && r.chance(60) {
+			sp = segs[max(0, len(segs)-r.rangeIn(2, 3))] // the segment before the previous one: distance > 64 KiB
+		} else if longOff && r.chance(60) {
+			sp = fmt.Sprintf("#%d:%d", r.intn(100000), r.rangeIn(66000, 90000)) // filler longer than 64 KiB
+			segs = append(segs, sp)
+		} else if len(segs) > 0 && r.chance(45) {
+			sp = segs[r.intn(len(segs))] // an earlier segment again: long-distance repeat
+		} else {
+			sp = newSeg()
+			segs = append(segs, sp)
+		}
+		p := unhx(sp)
+		// feed the segment, parsing whenever the buffer is full
+		for len(p) > 0 && !e.dead {
+			var out string
+			if r.chance(70) {
+				out = e.step("write " + sp)
+			} else {
+				// uniform responses: how many Read calls are made depends on the capacity history
+				// (32 KiB chunks while the buffer grows), which a reset parser and a new one do not share
+				rs := make([]resp, 16)
+				for i := range rs {
+					rs[i] = resp{1 << 20, 0}
+				}
+				out = e.step(fmt.Sprintf("readfrom %s %s", sp, showResps(rs)))
+			}
+			var k int
+			fmt.Sscan(out, &k)
+			total += k
+			if k >= len(p) {
+				break
+			}
+			// not everything was taken: parse what is buffered, shrink, continue with the rest
+			// (the rest is a different payload: spell its length with a fresh aperiodic segment)
+			p = nil
+			for g := 0; g < 64 && !e.dead && e.unparsed() > 0; g++ {
+				pLargeParse(r, e, d)
+			}
+			e.step("shrink")
+		}
+		if r.chance(35) {
+			for g := 0; g < 64 && !e.dead && e.unparsed() > 0; g++ {
+				pLargeParse(r, e, d)
+				if r.chance(20) {
+					break
+				}
+			}
+		}
+		if r.chance(10) {
+			e.step("shrink")
+		}
+		if r.chance(2) {
+			e.step("reset - 0")
+			if d != nil {
+				d.step("reset -")
+			}
+			total = 0
+		}
+	}
+	for g := 0; g < 200 && !e.dead && e.unparsed() > 0; g++ {
+		pLargeParse(r, e, d)
+	}
+	if d != nil && !d.dead {
+		d.step("flush")
+	}
+	emit("E", "E")
+	return e, d
+}
+
+// pLargeParse parses one block and hands it to the decoder (same window).
+func pLargeParse(r *rng, e *pExec, d *dExec) {
+	if r.chance(4) {
+		before := e.cpos
+		e.step("parsenil")
+		if d != nil && !d.dead && e.cpos > before {
+			d.step("w " + hx(e.fed[before:e.cpos]))
+		}
+		return
+	}
+	e.step(fmt.Sprintf("parse %d", r.pick(0, 0, 0, 1)))
+	if d == nil || d.dead || e.dead {
+		return
+	}
+	blk := e.blkBuf
+	if len(blk.Sequences) == 0 && len(blk.Literals) == 0 {
+		return
+	}
+	d.step(fmt.Sprintf("wblk %s %s", showSeqs(blk.Sequences), hx(blk.Literals)))
+}
